@@ -84,7 +84,17 @@ Src(ns, p)   == ns[CHOOSE i \in 1..Len(ns) : /\ p \in Names(Cat[ns[i]].outs)
 DataE(ns) == {<<Src(ns, np[2]), np[1]>> :
                 np \in {np \in Names(ns) \X AllParams : np[2] \in Names(Cat[np[1]].ins) /\ np[2] \in Produced(ns)}}
 CtrlE(ns) == {gt \in Names(ns) \X Names(ns) : Cat[gt[1]].gate /\ gt[2] \in Names(Cat[gt[1]].targets)}
-AllE(ns)  == DataE(ns) \cup CtrlE(ns)
+
+\* The node lists that can occur (a base list extended by add_nodes) and their edge structure.
+\* A constant: TLC evaluates it once.
+ExtSeqs   == {<<>>, <<"Z">>, <<"W">>, <<"Z", "W">>, <<"W", "Z">>}
+NodeLists == {b \o x : b \in {<<"A", "B", "C">>, <<"P", "Q", "R", "T">>}, x \in ExtSeqs}
+St == [ns \in NodeLists |->
+         [prod  |-> Produced(ns),
+          src   |-> [p \in Produced(ns) |-> Src(ns, p)],
+          dataE |-> DataE(ns),
+          allE  |-> DataE(ns) \cup CtrlE(ns)]]
+
 Sub(E, S) == {e \in E : e[1] \in S /\ e[2] \in S}
 Succ(E, S) == {e[2] : e \in {e \in E : e[1] \in S}}
 RECURSIVE Closure(_, _)
@@ -92,7 +102,7 @@ Closure(E, S) == LET S2 == S \cup Succ(E, S) IN IF S2 = S THEN S ELSE Closure(E,
 Desc(E, S) == Closure(E, Succ(E, S))          \* reachable in >= 1 step
 
 \* active scope: forward from the entry points ...
-FromEntry(ns, ev) == (Names(ev) \cup Desc(AllE(ns), Names(ev))) \cap Names(ns)
+FromEntry(ns, ev) == (Names(ev) \cup Desc(St[ns].allE, Names(ev))) \cap Names(ns)
 \* ... narrowed backward from the selection, a needed gate pulls in all its targets and what follows them
 RECURSIVE Need(_, _, _)
 Need(E, act, N) ==
@@ -102,7 +112,7 @@ Need(E, act, N) ==
   IN IF N2 = N THEN N ELSE Need(E, act, N2)
 FromSel(ns, act, sv) ==
   LET prod == {n \in act : Names(Cat[n].outs) \cap Names(sv) # {}}
-  IN IF prod = {} THEN {} ELSE Need(Sub(AllE(ns), act), act, prod)
+  IN IF prod = {} THEN {} ELSE Need(Sub(St[ns].allE, act), act, prod)
 Active(ns, sel, entry) ==
   LET a0 == IF entry.set THEN FromEntry(ns, entry.v) ELSE Names(ns)
   IN IF sel.set THEN FromSel(ns, a0, sel.v) ELSE a0
@@ -116,23 +126,28 @@ EntrySeq(epn, need, k) ==       \* entry-point parameters in sorted node order
   ELSE (IF Order[k] \in epn THEN need[Order[k]] ELSE <<>>) \o EntrySeq(epn, need, k + 1)
 
 InSpec(ns, bk, sel, entry) ==
-  LET act  == Active(ns, sel, entry)
+  LET st   == St[ns]
+      act  == Active(ns, sel, entry)
       aseq == SeqFilter(ns, act, 1)
-      dE   == Sub(DataE(ns), act)
-      ep   == {p \in AllParams : p \in Produced(ns) /\ Src(ns, p) \in act
-                                 /\ \E n \in act : p \in Names(Cat[n].ins)}   \* edge-produced inside the scope
-      cyc  == {n \in act : n \in Desc(dE, {n})}
-      cp   == {p \in ep : \E n \in cyc : p \in Names(Cat[n].ins) /\ Src(ns, p) \in Desc(dE, {n})}
+      dE   == Sub(st.dataE, act)
+      used == UNION {Names(Cat[n].ins) : n \in act}
+      ep   == {p \in used \cap st.prod : st.src[p] \in act}       \* edge-produced inside the scope
+      reach == [n \in act |-> Desc(dE, {n})]
+      cyc  == {n \in act : n \in reach[n]}
+      cp   == {p \in ep : \E n \in cyc : p \in Names(Cat[n].ins) /\ st.src[p] \in reach[n]}
       need == [n \in cyc |-> SeqFilter(Cat[n].ins, (cp \ bk) \ Cat[n].dflt, 1)]
       epn  == {n \in cyc : ~Cat[n].gate /\ need[n] # <<>>}
       epar == UNION {Names(need[n]) : n \in epn}
-      dfl  == {p \in AllParams : \E n \in act : p \in Names(Cat[n].ins) /\ p \in Cat[n].dflt}
+      dfl  == UNION {Names(Cat[n].ins) \cap Cat[n].dflt : n \in act}
       uniq == Dedup(FlatIns(aseq, 1), {}, 1)
       free == (Names(uniq) \ epar) \ ep
       req  == SeqFilter(uniq, (free \ bk) \ dfl, 1)
       opt  == SeqFilter(uniq, free \cap (bk \cup dfl), 1)
   IN [req |-> req, opt |-> opt, eps |-> [n \in epn |-> need[n]],
       all |-> Dedup(req \o opt \o EntrySeq(epn, need, 1), {}, 1)]
+
+\* valid bind names of the plain graph over a node list (guard of add_nodes); a constant
+PlainValid == [ns \in NodeLists |-> Names(InSpec(ns, {}, Unset, Unset).all) \cup Produced(ns)]
 
 (***************************************************************************)
 (* Objects.  One record shape for every kind (neutral values elsewhere).   *)
@@ -225,9 +240,8 @@ Pre(o, e) ==
                                    /\ e.arg[1] \notin Names(o.entry.v)
     [] e.op = "add_nodes" -> /\ e.arg[1] \notin Names(o.nodes)
                              /\ Names(Cat[e.arg[1]].outs) \cap Names(o.outs) = {}
-                             /\ LET ns2 == Append(o.nodes, e.arg[1])
-                                    sp  == InSpec(ns2, {}, Unset, Unset)
-                                IN DOMAIN o.bound \subseteq Names(sp.all) \cup Produced(ns2)
+                             /\ Append(o.nodes, e.arg[1]) \in NodeLists
+                             /\ DOMAIN o.bound \subseteq PlainValid[Append(o.nodes, e.arg[1])]
     [] e.op = "as_node"   -> TRUE
     [] e.op = "with_name" -> e.arg[1] # o.name
     [] e.op = "with_inputs"  -> LET m == PairsOf(e.arg, 1)
